@@ -299,7 +299,11 @@ int xmp_smix_load_sample(xmp_context opaque, int num, const char *path)
 	}
 	hio_close(h);
 
-	/* Commit */
+	/* Commit.  A sample loaded into this slot before is released first
+	 * (as xmp_smix_release_sample would), not leaked.
+	 */
+	xmp_smix_release_sample(opaque, num);
+
 	xxi->vol = m->volbase;
 	xxi->nsm = 1;
 	xxi->sub = sub;
